@@ -108,6 +108,15 @@ def run(ctx):
         return ctx.tlc("TarImportMC", cfg, workers=workers, timeout=3000, label=label)
     with concurrent.futures.ThreadPoolExecutor(max_workers=3 if thorough else 5) as ex:
         mc = [r for r in ex.map(mc_run, runs) if r]
+    # export walk + importer composed: the archive ImageExport writes (as modelled) is complete, holds every
+    # name once and is imported in a single pass; the predicted entry order is compared with the real one below
+    mc.append(ctx.tlc("TarExport", "C09_mc_roundtrip.cfg", workers=2, timeout=1500,
+                      label="export walk composed with the importer, every single-root graph"))
+    xg = ctx.tlc("TarExportGen", "C09_gen_export.cfg", workers=1, timeout=1500, label="generator: export entry order")
+    xorder = {}
+    for m in re.finditer(r'^<<"XORD", "(.*)">>$', xg["output"], re.M):
+        o = json.loads(m.group(1).encode().decode("unicode_escape"))
+        xorder[o["g"]] = ["/".join(n) for n in o["names"]]
     states = sum(r["distinct"] for r in mc)
     trans = sum(r["generated"] for r in mc)
     vlib.log("C09: model checking %.0fs" % (time.time() - t0))
@@ -331,6 +340,17 @@ def run(ctx):
         if not d:
             exact += 1
 
+    xcompared = 0
+    drift["export_order"] = 0
+    for b in blocks:
+        g = b.get("meta", {}).get("graph")
+        if b["kind"] == "oci" and g in xorder and "order" in b["meta"]:
+            xcompared += 1
+            if b["meta"]["order"] != xorder[g]:
+                drift["export_order"] += 1
+                if len(drift_samples) < 8:
+                    drift_samples.append({"block": b["block"], "kinds": ["export_order"], "pred": xorder[g], "real": b["meta"]["order"]})
+
     # ------------------------------------------------------------ 5. binding demos
     if not ctx.violations:
         def demo(name, pick, edit):
@@ -419,7 +439,8 @@ def run(ctx):
         "export_blocks": len(blocks), "import_traces": len(traces), "rejected_traces": len(rejected_ids),
         "rejections": len(rejections), "trace_lines": nlines, "trace_states": tstates, "trace_transitions": ttrans,
         "graphs": graphs, "link_patterns": patterns, "endpoint_pairs": pairs, "multi_pass_imports": multipass,
-        "pred_compared": compared, "pred_exact": exact, "drift": drift, "drift_samples": drift_samples,
+        "pred_compared": compared, "pred_exact": exact, "export_orders_compared": xcompared,
+        "drift": drift, "drift_samples": drift_samples,
         "entry_points": ["RegClient.ImageExport", "RegClient.ImageImport", "ImageWithExportCompress", "ImageWithExportRef",
                          "ImageWithImportName", "scheme reg + ocidir blob/manifest put"],
     }
@@ -432,6 +453,6 @@ def run(ctx):
         "'Docker-loadable' is audited as: manifest.json has one entry whose Config and Layers name archive entries "
         "holding the image's config and layers in order, RepoTags carry the exported tag (no docker daemon involved)",
     ]
-    if drift["result"] or drift["passes"] or drift["pushes"]:
+    if any(drift.values()):
         vlib.log("C09: design-spec drift (not a violation): %s" % drift)
     return "model_checking", cov, assumptions
